@@ -201,7 +201,8 @@ def behDecide (b : Beh) (res : Option Val) (m : M) : List TAct × Beh × BRes ×
   | .waitUntil count =>
     let count' := count + 1
     match res with
-    | some (.bool _) => ([], .waitUntil count', .ok, false)
+    | some (.bool true) => ([], .waitUntil count', .ok, false)
+    | some (.bool false) => ([.suspend 10, .clearV, .setVars []], .waitUntil count', .seekStart, false)
     | some _ => ([.log Diag.runtime_TypeMissmatch, .suspend 10, .clearV, .setVars []], .waitUntil count', .seekStart, false)
     | none =>
       if count' > 30000 && m.ctx.canSuspend then ([.log Diag.runtime_WaitUntilMaxLoopReached], .waitUntil count', .ok, false)
